@@ -419,3 +419,7 @@ mod tests {
         assert_eq!(it.next(), None);
     }
 }
+
+#[cfg(feature = "pendulum_project_ntpd_rs_verif")]
+#[path = "/verif/hooks/statime-wire/common_tlv.rs"]
+pub mod vh_common_tlv;
